@@ -884,14 +884,12 @@ def get_function_type(function_def):
     ), "Expected `FunctionDef` got `{type_name}`".format(
         type_name=type(function_def).__name__
     )
-    if (
-        not hasattr(function_def, "args")
-        or function_def.args is None
-        or not function_def.args.args
-    ):
+    if not hasattr(function_def, "args") or function_def.args is None:
         return "static"
-    elif function_def.args.args[0].arg in frozenset(("self", "cls")):
-        return function_def.args.args[0].arg
+    # the receiver may be positional-only: `def f(self, /, a)`
+    args = getattr(function_def.args, "posonlyargs", []) + function_def.args.args
+    if args and args[0].arg in frozenset(("self", "cls")):
+        return args[0].arg
     return "static"
 
 
